@@ -3,7 +3,15 @@ package main
 // splitmix64: every random choice of the harness derives from one state seeded by VERIF_SEED.
 type RNG struct{ s uint64 }
 
-func NewRNG(seed uint64) *RNG { return &RNG{s: seed*0x9E3779B97F4A7C15 + 0x1234567} }
+// NewRNG scrambles the seed before it becomes the state: the state advances by a constant, so states that are linear in
+// the seed would make the streams of neighbouring seeds shifted copies of each other (seed 2 = seed 1 without its first value).
+func NewRNG(seed uint64) *RNG {
+	z := seed + 0x1234567
+	z = (z ^ (z >> 30)) * 0xBF58476D1CE4E5B9
+	z = (z ^ (z >> 27)) * 0x94D049BB133111EB
+	z = z ^ (z >> 31)
+	return &RNG{s: z*0x9E3779B97F4A7C15 + 0x632BE59BD9B4E019}
+}
 
 func (r *RNG) U64() uint64 {
 	r.s += 0x9E3779B97F4A7C15
